@@ -123,6 +123,9 @@ def seeds() -> list:
         # bodies: only valid kinds; the framing must not open a second message
         for method in ("POST", "GET", "put"):
             for kind, chunks in (("none", ()), ("bytes", ("aZ",)), ("bytes", (EVIL,)), ("bytes", ("",)), ("str", ("a\xe9Z",)),
+                                 # a buffer object whose len() counts 2-byte items: were Content-Length its len(), the second half of
+                                 # its bytes - a complete request - would trail the message
+                                 ("widebuffer", ("x" * len(EVIL) + EVIL,)), ("widebuffer", ("aZ",)), ("widebuffer", ("",)),
                                  ("str", (EVIL,)), ("iter", ("a", "", "Z\r\n")), ("iter", (EVIL, "0\r\n\r\n")), ("iter", ()),
                                  ("file", ("aZ\r\n\r\n",)), ("file", (EVIL,)), ("file", ())):
                 out.append(mkreq(level, method=method, hdrs=[("X-k", "1")], body=(kind, chunks)))
@@ -171,6 +174,14 @@ def _body(req):
     raw = [c.encode("latin-1") for c in chunks]
     if kind == "bytes":
         return b"".join(raw)
+    if kind == "widebuffer":
+        import array
+        data = b"".join(raw)
+        if len(data) % 2:
+            raise tlc.MachineryError("a wide buffer needs an even number of bytes")
+        body = array.array("H")
+        body.frombytes(data)
+        return body
     if kind == "iter":
         return iter(raw)
     if kind == "file":
@@ -402,10 +413,11 @@ def random_request(rng):
         if x < .12:
             req["hdrs"].insert(rng.randint(0, len(req["hdrs"])), {"n": syms(disp), "v": plain(0, 3), "skip": x < .06})
     if rng.random() < .25:
-        kind = rng.choice(["bytes", "str", "iter", "file"])
+        kind = rng.choice(["bytes", "str", "iter", "file", "widebuffer"])
         nch = rng.randint(0, 3) if kind == "iter" else 1
         bpool = [s for s in pool if s != "NA" or kind == "str"]
-        req["body"] = {"kind": kind, "chunks": [[rng.choice(bpool) for _ in range(rng.randint(0, 9))] for _ in range(nch)]}
+        req["body"] = {"kind": kind, "chunks": [[rng.choice(bpool) for _ in range(rng.randint(0, 9) if kind != "widebuffer" else 2 * rng.randint(0, 4))]
+                                                for _ in range(nch)]}
     return req
 
 
